@@ -335,7 +335,7 @@ def extract_source_facts(notes: list[str]) -> dict[str, Any]:
         "bootstrapPackage": "<missing>", "bootstrapChecksTable": "<missing>", "defaultPackage": "<missing>",
         "defaultModule": "<missing>", "versionOrZero": False, "skipIfApplied": False, "skipIfZero": False,
         "applyThenRecord": False, "rollbackOnError": False, "reraises": False, "appliedUpdated": False,
-        "scriptPrefix": "<missing>", "appliedQueryFiltersPackage": False,
+        "scriptPrefix": "<missing>", "appliedQueryFiltersPackage": False, "seedsCommitted": False,
     }
     utils = _parse_py(UTILS_PY)
     if utils is not None:
@@ -385,6 +385,12 @@ def extract_source_facts(notes: list[str]) -> dict[str, Any]:
                     and isinstance(n.test.left, ast.Name) and isinstance(n.test.comparators[0], ast.Constant) \
                     and isinstance(n.test.comparators[0].value, int) and any(
                         isinstance(m, ast.Call) and isinstance(m.func, ast.Name) and m.func.id == "range" for m in ast.walk(n)):
+                # the seed rows are committed by the bootstrap itself: a `<conn>.commit()` statement after the statement
+                # that inserts them, inside the same guarded block (nothing later in a run is bound to commit them)
+                ins = [i for i, b in enumerate(n.body) if any("INSERT" in c.upper() and "schema_migrations" in c for c in _const_strs(b))]
+                com = [i for i, b in enumerate(n.body) if isinstance(b, ast.Expr) and isinstance(b.value, ast.Call)
+                       and isinstance(b.value.func, ast.Attribute) and b.value.func.attr == "commit" and not b.value.args]
+                f["seedsCommitted"] = bool(ins) and any(j > ins[-1] for j in com)
                 f["legacyGuardOp"] = type(n.test.ops[0]).__name__
                 f["legacyGuardRhs"] = n.test.comparators[0].value if n.test.comparators[0].value >= 0 else 999
             if isinstance(n, ast.Tuple) and len(n.elts) == 2 and isinstance(n.elts[0], ast.Constant) \
